@@ -545,6 +545,37 @@ def rule_execflow(P) -> RuleResult:
             raise AnalysisError(f'{ex.fq}: no returning path on terms')
         if good:
             res.ok({'statement': 'parsed tree' if parsed else 'text', 'paths': n, 'compiler_receives': '(context, statement, parameters as given)'})
+    # executemany: the statement is executed once for every parameter set, in the order given - also for sets that repeat or compare
+    # equal ((1,) == (True,) == (Decimal(1),) in Python, three different parameter sets in BQL)
+    em = cur.methods.get('executemany')
+    if em is None:
+        raise AnalysisError('anchor vanished: Cursor.executemany')
+    P1, P2 = Sym('PARAMETER_SET_1'), Sym('PARAMETER_SET_2')
+    PARSED = Sym('PARSED_STATEMENT')
+    runs = []
+
+    def on_call_m(fname, fval, recv, args, kwargs, e, node):
+        f = str(fname)
+        if f.split('.')[-1] == 'parse':
+            return PARSED
+        if f.split('.')[-1] == 'execute' and recv == CUR:
+            runs.append(tuple(args) + tuple(v for _, v in kwargs))
+            return CUR
+        return NotImplemented
+    n = 0
+    for p in Engine(P, on_call=on_call_m, max_depth=0).paths(em, {'self': CUR, em.params[1]: QUERY, em.params[2]: SList([P1, P2, P2])}):
+        n += 1
+        want = [(PARSED, P1), (PARSED, P2), (PARSED, P2)]
+        alt = [(QUERY, P1), (QUERY, P2), (QUERY, P2)]
+        if p.decisions or p.outcome == 'raise' or runs not in (want, alt):
+            res.fail(em.fq, 'execflow:executemany', f'executemany(statement, [p1, p2, p2]) must execute the statement three times, with p1, p2 and '
+                     f'p2 again, in this order; it executes {[tuple(show(x)[:24] for x in r) for r in runs] or "nothing it can be seen to"}'
+                     + (f' (depending on {show(p.decisions[0][0])[:50]})' if p.decisions else ''), loc(em))
+        else:
+            res.ok({'method': 'executemany', 'executes': 'once per parameter set, in order, repeated sets included'})
+        runs.clear()
+    if n == 0:
+        raise AnalysisError(f'{em.fq}: no path on terms')
     return res
 
 
